@@ -1,2 +1,2 @@
-/-! stub: replaced by the owner of the m_wire driver (see tools/AGENT_GUIDE.md) -/
-def main : IO Unit := IO.println "bad-op"
+import DaliVerif.Drivers.WireDrv
+def main : IO Unit := DaliVerif.Proto.loop DaliVerif.WireDrv.handle
